@@ -813,8 +813,132 @@ func guardsAt(b *ssa.BasicBlock) []Atom {
 			}
 		}
 	}
+	out = resolveDisjunctions(b, out)
 	sort.Slice(out, func(i, j int) bool { return out[i].String() < out[j].String() })
 	return out
+}
+
+// resolveDisjunctions: a block reached from several branch edges knows the disjunction of their
+// conditions (`else if a && b { … } else if a { HERE }`: HERE is entered from "not a" or "not b"); when
+// what is already known contradicts all alternatives but one, that one holds (unit resolution:
+// a, ¬a ∨ ¬b ⊢ ¬b).  Conditions are compared as comparisons of the *same SSA values* (a variable
+// assigned in between is another value, whatever it is called).  Applied to the dominators of b with
+// two or more predecessors, to a fixpoint.
+func resolveDisjunctions(b *ssa.BasicBlock, known []Atom) []Atom {
+	raw := rawGuardsAt(b)
+	type cmp struct {
+		x, y ssa.Value
+		op   token.Token
+	}
+	norm := func(g rawGuard) (cmp, bool) {
+		cond, pos := g.Cond, g.Positive
+		for {
+			u, ok := cond.(*ssa.UnOp)
+			if !ok || u.Op != token.NOT {
+				break
+			}
+			cond, pos = u.X, !pos
+		}
+		bo, ok := cond.(*ssa.BinOp)
+		if !ok {
+			return cmp{}, false
+		}
+		op := bo.Op
+		switch op {
+		case token.EQL, token.NEQ, token.LSS, token.LEQ, token.GTR, token.GEQ:
+		default:
+			return cmp{}, false
+		}
+		if !pos {
+			op = negTok(op)
+		}
+		return cmp{bo.X, bo.Y, op}, true
+	}
+	same := func(v, w ssa.Value) bool {
+		if v == w {
+			return true
+		}
+		kv, okv := v.(*ssa.Const)
+		kw, okw := w.(*ssa.Const)
+		return okv && okw && kv.Value != nil && kw.Value != nil && kv.Value.ExactString() == kw.Value.ExactString()
+	}
+	contradicts := func(a, k cmp) bool { // k known, a alternative: k implies not a
+		if !same(a.x, k.x) || !same(a.y, k.y) {
+			return false
+		}
+		return k.op == negTok(a.op)
+	}
+	var knownC []cmp
+	for _, g := range raw {
+		if c, ok := norm(g); ok {
+			knownC = append(knownC, c)
+		}
+	}
+	for round := 0; round < 3; round++ {
+		added := false
+		for d := b; d != nil; d = d.Idom() {
+			if len(d.Preds) < 2 {
+				continue
+			}
+			type alt struct {
+				c  cmp
+				at Atom
+			}
+			var alts []alt
+			okAll := true
+			for _, pr := range d.Preds {
+				if d.Dominates(pr) || len(pr.Instrs) == 0 {
+					okAll = false // a back edge: not an alternative way in
+					break
+				}
+				iff, isIf := pr.Instrs[len(pr.Instrs)-1].(*ssa.If)
+				if !isIf || pr.Succs[0] == pr.Succs[1] {
+					okAll = false
+					break
+				}
+				g := rawGuard{iff.Cond, pr.Succs[0] == d}
+				c, ok := norm(g)
+				at, okA := condAtom(g.Cond, g.Positive)
+				if !ok || !okA {
+					okAll = false
+					break
+				}
+				alts = append(alts, alt{c, at.canon()})
+			}
+			if !okAll {
+				continue
+			}
+			var alive []alt
+			for _, a := range alts {
+				dead := false
+				for _, k := range knownC {
+					if contradicts(a.c, k) {
+						dead = true
+					}
+				}
+				if !dead {
+					alive = append(alive, a)
+				}
+			}
+			if len(alive) == 1 {
+				dup := false
+				for _, k := range knownC {
+					if same(k.x, alive[0].c.x) && same(k.y, alive[0].c.y) && k.op == alive[0].c.op {
+						dup = true
+					}
+				}
+				if !dup {
+					knownC = append(knownC, alive[0].c)
+					known = append(known, alive[0].at)
+					added = true
+				}
+			}
+		}
+		if !added {
+			break
+		}
+	}
+	return known
 }
 
 // helperAtoms: when a branch condition is the answer of a small boolean helper of the module
